@@ -45,7 +45,7 @@ func runC18(c *Ctx) {
 	}
 	okp, _ := nkeys.CreateOperator()
 	signers := append([]nkeys.KeyPair{okp}, accts...)
-	toksA := []string{"a", "b", "foo", "*", ">", "x1", "_", "A", "a*b", "x>y", "*foo", "bar>", "**"}
+	toksA := []string{"a", "b", "foo", "*", ">", "x1", "_", "A", "a*b", "x>y", "*foo", "bar>", "**", "cpu%", "%s", "$1", "%", "a\\b"}
 	genSubj := func() string {
 		n := 1 + c.Rng.Intn(5)
 		t := make([]string, n)
@@ -60,6 +60,9 @@ func runC18(c *Ctx) {
 	shapes := []string{"foo.a*b.>", "foo.a*b", "*foo.bar", "x>y.bar.*", "a", "a.b", "a.b.c", "*", ">", "*.a", "a.*", "a.>", "a.*.b", "a.b.*.>", "*.*", "_", "_.a", "a.b.*", "foo.*.bar.>"}
 	// characters that do not show (zero-width space, no-break space, byte-order mark, soft hyphen) are characters
 	shapes = append(shapes, "orders\u200b.eu.*", "a\u00a0b.c.>", "\ufeffx.y", "so\u00adft.*", "x.\u200b.*", "tab\tbed.*")
+	// characters that mean something to a formatter, a template or a shell mean nothing in a subject
+	shapes = append(shapes, "metrics.cpu%.*", "load.100%", "fmt.%s.>", "%d", "%v.%v.*", "a.%!s(MISSING)", "a.%s", "100%%.>", "%[1]s.x", "back\\slash.*",
+		"$1.x.*", "{{.}}.>", "${HOME}.*", "q\"uote.*", "semi;colon", "a b.c.*", "new\nline.*", "%x%x%x%n")
 	// deep subjects: many literal tokens before the first wildcard (and none at all), several tails on the same prefix
 	for _, depth := range []int{7, 8, 9, 15, 16, 17, 20, 31, 32, 33, 64, 100} {
 		var lit []string
